@@ -1,14 +1,19 @@
 """C16 store fidelity: every operation of generated sequences on the real BadgerStore vs the Coq model and vs a plain map."""
 import re
+from concurrent.futures import ThreadPoolExecutor
 import vlib
+from props import storehgcommon
 
-HARNESS = ["store"]
+HARNESS = ["store", "storehg"]
 ASSUMPTIONS = ["Badger's per-transaction atomicity and durability; JSON codecs are the identity on the modelled content (C15)",
                "indexes in [0, 10^9) (the %09d key format); Reset/Bootstrap/maintenance mode are covered by C11/C13"]
 TRUSTED_EXTRA = ["documented deviations W1-W5 of the real store from a plain map (DESIGN.md C16) are classified by the harness, proved as refutation witnesses in Properties/C16.v, and never reported as violations"]
 
 def run(ctx):
     thorough = ctx["tier"] == "thorough"
+    # part "hg-traffic" (real gossip histories through a recording decorator) runs alongside the direct sequences
+    ex = ThreadPoolExecutor(max_workers=1)
+    hg_future = ex.submit(storehgcommon.run, ctx)
     args = ["-seed", ctx["seed"]] + (["-thorough"] if thorough else ["-seqs", 300, "-ops", 150])
     rc, out, dt = vlib.run_harness("store", args, timeout=3000)
     if rc != 0:
@@ -42,4 +47,20 @@ def run(ctx):
                     "close/reopen; every operation's result compared with the extracted model, and every compared read with a plain Go map "
                     "of the acknowledged writes; non-trivial = sequences in which an eviction was forced or the store was reopened (%d sequences)" % seqs,
                samples=samples, histogram=dict(ops=kinds, documented_deviations=wcount), traces_validated_against_impl=seqs)
-    return dict(findings=findings[:10], coverage=cov, corr_diffs=diffs[:10])
+    hgres = hg_future.result()
+    ex.shutdown()
+    hgf = storehgcommon.findings_for(hgres, "C16")
+    hgcov = storehgcommon.coverage_from(hgres)
+    cov["evaluations"] += hgres["cases"]
+    cov["distinct_nontrivial"] += hgcov["nontrivial"]
+    cov["traces_validated_against_impl"] += hgcov["histories"]
+    cov["rule"] += ("; PART hg-traffic: the store traffic of a real node core (node 0, BadgerStore behind a recording decorator) in seeded gossip "
+                    "histories with in-memory peers and a late block signer, regimes stress (cache 3..30, far below the node's window), window "
+                    "(cache 100, > cache-size blocks, late signatures re-save evicted blocks) and default (cache 10000); every store operation of "
+                    "the node is replayed on the extracted model; oracle = plain map of the last acknowledged write per key, checked on every "
+                    "DB fall-through read of the node, on harness reads through the same store after every action (incl. the oldest keys), "
+                    "on the DB copy of every key written in the action, on snapshot copies and after the final close/reopen; non-trivial = "
+                    "histories in which the node read or re-saved an evicted key (%d of %d histories)" % (hgcov["nontrivial"], hgcov["histories"]))
+    cov["hg_traffic"] = hgcov
+    cov["samples"] = cov["samples"][:3] + hgcov["samples"][:2]
+    return dict(findings=(hgf + findings)[:12], coverage=cov, corr_diffs=(hgres["diffs"] + diffs)[:10])
